@@ -1,4 +1,5 @@
 """Running TLC: one call = one model-checking or simulation run in a scratch directory."""
+import glob
 import os
 import re
 import shutil
@@ -160,3 +161,22 @@ def sany(path):
                        stdout=subprocess.PIPE, stderr=subprocess.STDOUT)
     out = p.stdout.decode()
     return ('Semantic errors' not in out and 'Parse Error' not in out and 'Fatal' not in out and p.returncode == 0), out
+
+
+def tlapm(module, timeout=900):
+    """Check the proofs of spec/proofs/<module>.tla with the TLA+ proof system; returns {'obligations_proved': n}.  Raises TLCError unless
+    every obligation is proved."""
+    d = scratch('verif-tlaps-')
+    try:
+        for f in glob.glob(os.path.join(SPEC_DIR, '*.tla')) + glob.glob(os.path.join(SPEC_DIR, 'proofs', '*.tla')):
+            shutil.copy(f, d)
+        try:
+            p = subprocess.run(['tlapm', '--cleanfp', module + '.tla'], cwd=d, stdout=subprocess.PIPE, stderr=subprocess.STDOUT, text=True, timeout=timeout)
+        except subprocess.TimeoutExpired:
+            raise TLCError('tlapm timed out on %s' % module)
+        m = re.search(r'All (\d+) obligations? proved', p.stdout)
+        if p.returncode != 0 or not m:
+            raise TLCError('tlapm: not every obligation of %s was proved:\n%s' % (module, '\n'.join(l for l in p.stdout.splitlines() if not l.startswith(('Called from', 'Raised')))[-2000:]))
+        return {'module': module, 'obligations_proved': int(m.group(1))}
+    finally:
+        shutil.rmtree(d, ignore_errors=True)
